@@ -684,6 +684,10 @@ def fwd_position(m: Model, d: Data, factorize: bool = True):
     else:
       collision_driver.collision(m, d)
 
+  # connect/weld rows subtract Jdot*qvel, which needs d.cvel / d.cdof_dot of the current state;
+  # fwd_velocity only recomputes them after this function returns
+  if m.neq > 0:
+    smooth.com_vel(m, d)
   constraint.make_constraint(m, d)
 
   if sleep_enabled:
